@@ -253,3 +253,33 @@ func (x Xform3) Kinds() map[string]bool {
 	walk(x)
 	return m
 }
+
+// LatticeCells estimates how many lattice cells a mesher visits for the image of the box [min, max] under x at
+// spacing delta (axis-aligned box of the eight corner images, two extra cells per axis).  Generated cases whose
+// lattice would be enormous are a cost problem of the case, not a property of the library: checks skip them.
+func LatticeCells(x Xform3, min, max kit.V3, delta float64) float64 {
+	lo := kit.V3{math.Inf(1), math.Inf(1), math.Inf(1)}
+	hi := kit.V3{math.Inf(-1), math.Inf(-1), math.Inf(-1)}
+	for i := 0; i < 8; i++ {
+		p := kit.V3{min[0], min[1], min[2]}
+		if i&1 != 0 {
+			p[0] = max[0]
+		}
+		if i&2 != 0 {
+			p[1] = max[1]
+		}
+		if i&4 != 0 {
+			p[2] = max[2]
+		}
+		q := x.RefApply(p)
+		for k := 0; k < 3; k++ {
+			lo[k] = math.Min(lo[k], q[k])
+			hi[k] = math.Max(hi[k], q[k])
+		}
+	}
+	cells := 1.0
+	for k := 0; k < 3; k++ {
+		cells *= (hi[k]-lo[k])/delta + 3
+	}
+	return cells
+}
